@@ -272,8 +272,8 @@ func checkC11(c *runCtx) {
 		depth = 8
 	}
 	two := []gIface{{Name: "eth0", Up: true, Addrs: []string{"10.0.0.1"}}, {Name: "eth1", Up: true, Addrs: []string{"192.168.1.2"}}}
-	vtSearch(c, p, vtSpec{Name: "candidate stream of gathering cycles: host", Model: "gather", Cfg: gatherCfg{Ifaces: two, NetTypes: []string{"udp4"}, CandTypes: []string{"host"}, Depth: depth}, Deadline: dl})
-	vtSearch(c, p, vtSpec{Name: "candidate stream of gathering cycles: host + srflx", Model: "gather", Cfg: gatherCfg{Ifaces: gIfacesBasic, NetTypes: []string{"udp4"}, CandTypes: []string{"host", "srflx"}, URLs: []string{"stun:198.51.100.1:3478"}, Depth: depth}, Deadline: dl})
+	vtSearch(c, p, vtSpec{Name: "candidate stream of gathering cycles: host", Model: "gather", Finish: true, Cfg: gatherCfg{Ifaces: two, NetTypes: []string{"udp4"}, CandTypes: []string{"host"}, Depth: depth}, Deadline: dl})
+	vtSearch(c, p, vtSpec{Name: "candidate stream of gathering cycles: host + srflx", Model: "gather", Finish: true, Cfg: gatherCfg{Ifaces: gIfacesBasic, NetTypes: []string{"udp4"}, CandTypes: []string{"host", "srflx"}, URLs: []string{"stun:198.51.100.1:3478"}, Depth: depth}, Deadline: dl})
 	csExplore(c, "addcandidate-after-cancel", 3, dl, func(zzmc.Failure) string { return "S6" })
 	csExplore(c, "gather-vs-restart", b, dl, nil)
 	csExplore(c, "gather-vs-gather", b, dl, nil) // two accepted calls: one cycle's candidates, then one end marker
